@@ -348,7 +348,10 @@ RULES = {
 def run_suite(stage, suite, seed, n, workdir, extra=()):
     cases, impl, model = (os.path.join(workdir, '%s.%s' % (suite, x)) for x in ('cases', 'impl', 'model'))
     cmd = [BUILD + '/harness', '-suite', suite, '-seed', str(seed), '-n', str(n), '-cases', cases, '-impl', impl] + list(extra)
-    rc, out = sh(cmd, timeout=3000)
+    try:
+        rc, out = sh(cmd, timeout=6000)
+    except subprocess.TimeoutExpired:
+        raise HarnessCrash(suite, seed, 'the harness did not terminate within 6000 s')
     if rc != 0:
         if 'panic:' in out or 'fatal error:' in out:
             raise HarnessCrash(suite, seed, out)
